@@ -1584,7 +1584,17 @@ _dispatch_wait_compute_wlh(dispatch_lane_t dq, dispatch_sync_context_t dsc)
 	}
 
 	dispatch_queue_t tq = dq->do_targetq;
-	uint64_t tq_state = _dispatch_wait_prepare(tq);
+	uint64_t tq_state;
+
+	if (unlikely(dx_hastypeflag(tq, QUEUE_ROOT))) {
+		// dq is being retargeted (_dispatch_lane_legacy_set_target_queue):
+		// its role and its target are not updated atomically, so a queue
+		// that looks like an inner queue can still (or already) target a
+		// root queue, which has no target of its own to walk to
+		tq_state = DISPATCH_QUEUE_ROLE_BASE_ANON;
+	} else {
+		tq_state = _dispatch_wait_prepare(tq);
+	}
 
 	if (_dq_state_is_suspended(tq_state) ||
 			_dq_state_is_base_anon(tq_state)) {
